@@ -81,7 +81,7 @@ def plan(tier, seed):
             specs.append({"kind": "filter", "filter": f, "size": s})
     # ---- radon
     ns = list(range(5, 49))
-    reps = 1 if quick else 8
+    reps = 1 if quick else 32
     for n, ac, ik in itertools.product(ns, ANGLE_CLASSES, IMAGE_KINDS):
         for r in range(reps):
             specs.append({"kind": "radon", "n": n, "angles": ac, "image": ik, "batch": int(rng.integers(1, 5)), "theta": "given"})
